@@ -19,6 +19,9 @@ type H264Cache struct {
 	gop      queue.Queue
 	sps      *rtp.Packet // 序列参数集包
 	pps      *rtp.Packet // 图像参数集包
+	spsAt    uint64      // arrival order of sps / pps, to replay them oldest first
+	ppsAt    uint64
+	arrivals uint64
 	hasKey   bool        // a key picture has been seen
 	keyTS    uint32      // RTP timestamp of the most recent key picture
 }
@@ -44,14 +47,15 @@ func (cache *H264Cache) CachePack(pack Pack) bool {
 	cache.l.Lock()
 	defer cache.l.Unlock()
 
-	if sps { // 新序列参数,重置图像参数和 GopCache
-		cache.sps = rtppack
-		return false
+	// 一个包可能同时携带 SPS、PPS 甚至关键帧（STAP-A）：
+	// remember it for every parameter set it carries, and go on to the GOP handling
+	if sps {
+		cache.arrivals++
+		cache.sps, cache.spsAt = rtppack, cache.arrivals
 	}
-
-	if pps { // 新图像参数，重置 GopCahce
-		cache.pps = rtppack
-		return false
+	if pps {
+		cache.arrivals++
+		cache.pps, cache.ppsAt = rtppack, cache.arrivals
 	}
 
 	// 一个关键帧可能由多个 slice/分包组成（同一 RTP 时间戳）：
@@ -92,19 +96,30 @@ func (cache *H264Cache) PushTo(q *queue.SyncQueue) int {
 	cache.l.RLock()
 	defer cache.l.RUnlock()
 
-	// 写参数包
-	if cache.sps != nil {
-		q.Queue().Push(cache.sps)
-		bytes += cache.sps.Size()
+	var packs []queue.Elem
+	if cache.cacheGop {
+		packs = cache.gop.Elems()
 	}
-	if cache.pps != nil {
-		q.Queue().Push(cache.pps)
-		bytes += cache.pps.Size()
+
+	// 写参数包: oldest first, each once; one that is part of the cached GOP is
+	// replayed there, in its place
+	first, second := cache.sps, cache.pps
+	if cache.ppsAt < cache.spsAt {
+		first, second = second, first
+	}
+	if second == first {
+		second = nil
+	}
+	for _, ps := range []*rtp.Packet{first, second} {
+		if ps == nil || inPacks(packs, ps) {
+			continue
+		}
+		q.Queue().Push(ps)
+		bytes += ps.Size()
 	}
 
 	// 如果必要，写 GopCache
 	if cache.cacheGop {
-		packs := cache.gop.Elems()
 		q.Queue().PushN(packs) // 启动阶段调用，无需加锁
 		for _, p := range packs {
 			bytes += p.(Pack).Size()
@@ -112,6 +127,15 @@ func (cache *H264Cache) PushTo(q *queue.SyncQueue) int {
 	}
 
 	return bytes
+}
+
+func inPacks(packs []queue.Elem, p *rtp.Packet) bool {
+	for _, e := range packs {
+		if e == queue.Elem(p) {
+			return true
+		}
+	}
+	return false
 }
 
 func (cache *H264Cache) getPalyloadType(payload []byte) (sps, pps, islice bool) {
